@@ -291,11 +291,13 @@ PROPS = {
         "design_ref": "6.3",
         "technique": TECH,
         "clauses_decided": [
-            "termination on cyclic / malformed rdf:List structures, Turtle family: TurtleSerializer.isValidList and "
-            "LongTurtleSerializer.isValidList terminate on every finite graph (variant: first stop index of the rdf:rest "
-            "chain minus the iteration counter) and return True exactly for a chain that ends without revisiting a cell "
-            "and whose cells carry nothing but rdf:first / rdf:rest - so a cyclic or annotated list is never written in "
-            "( ... ) form, where its extra triples would be lost (proved, ghost chain + witness map)",
+            "termination on cyclic / malformed rdf:List structures and lossless list abbreviation, Turtle family: "
+            "TurtleSerializer.isValidList and LongTurtleSerializer.isValidList terminate on every finite graph (variant: "
+            "first stop index of the rdf:rest chain minus the iteration counter) and return True EXACTLY for a chain of "
+            "blank-node cells, each with one rdf:first, one rdf:rest and no other property, inner cells referenced once, "
+            "that reaches rdf:nil without revisiting a cell - the condition under which the ( ... ) form loses, renames or "
+            "duplicates nothing; taken from the property, not from the code: the code before fix dd54950d (any chain whose "
+            "cells have two properties) fails it (proved, ghost chain + witness map; four broken copies fail the proof)",
             "string escapers against the W3C STRING_LITERAL_QUOTE grammar, for ALL strings over Unicode scalar values: "
             "nt._quote_encode (N-Triples / N-Quads literal bodies) and the single-line branch of Literal._quote_encode "
             "(Turtle / N3 / TriG / SPARQL / n3()) write one pair of quotes around a body that is a sequence of grammar items "
@@ -314,8 +316,8 @@ PROPS = {
         "explanation": "The one structural function that decides whether a list is abbreviated (and that used to loop "
                        "forever) is proved; the text-level round trip is a bounded differential run.",
         "assumptions": A_COMMON,
-        "level_text": "Proof of isValidList (termination + exact acceptance condition) for Turtle/N3/long Turtle; the "
-                      "round trip itself is bounded; 'other'.",
+        "level_text": "Proof of isValidList (termination + exact, lossless acceptance condition) for Turtle/N3/long Turtle "
+                      "and of the literal escapers (all strings); the round trip itself is bounded; 'other'.",
         "level_note": "Trusted: existence of the first stop index in a finite graph (pigeonhole), Graph.value / "
                       "predicate_objects as functions of the graph; rdflib.compare.isomorphic as oracle in the bounded run.",
     },
@@ -453,8 +455,11 @@ PROPS = {
             "decides only the edit-queue clause: SPARQLUpdateStore.add/remove queue exactly one write after the earlier "
             "ones (autocommit off) or send the queue at once (autocommit on); when they raise (no update endpoint, blank "
             "node) nothing is queued or sent; commit() sends all queued writes joined in call order in ONE request and "
-            "empties the queue; rollback() discards exactly the unsent ones; len() commits first unless dirty_reads "
-            "(proved, with _update abstracted as a ghost append to `sent`)",
+            "empties the queue; rollback() discards exactly the unsent ones; len(), triples(), contexts() and query() "
+            "commit first (one request, call order) unless dirty_reads or autocommit and otherwise leave queue and endpoint "
+            "alone; add_graph / remove_graph go through the queue like any other write - a DROP is never sent ahead of "
+            "queued writes (proved, with _update abstracted as a ghost append to `sent`; update()'s own queue discipline "
+            "is assumed: its text rewriting is regular-expression code)",
         ],
         "clauses_not_decided": [
             "that the generated SPARQL query/update text means the intended pattern at a conforming endpoint (triples, "
